@@ -123,8 +123,15 @@ def ilp32_monitor(ctx, sections, memcheck=False):
             if tag.startswith("ilp32-") and not (hdr and "sizeof_size_t=4 sizeof_pointer=4 sizeof_long=4" in hdr[0]):
                 ctx.inconclusive.append("h_abi %s does not report an ILP32 data model: %s" % (tag, hdr[:1]))
                 continue
-            if "+memcheck" in tag and rc == 99:
-                ctx.violation("ilp32-memcheck:%s" % sec, {"build": tag, "cmd": job["cmd"], "report": err[-5000:]})
+            if "+memcheck" in tag:
+                # the memcheck runs use the quick case list in every tier (cost); their lines were already compared in the
+                # plain run of the same binary, so only valgrind's verdict and the completion of the run count here
+                if rc == 99:
+                    ctx.violation("ilp32-memcheck:%s" % sec, {"build": tag, "cmd": job["cmd"], "report": err[-5000:]})
+                elif rc != 0 or not lines or not lines[-1].startswith("DONE"):
+                    ctx.violation("abi-crash:%s" % sec, {"build": tag, "cmd": job["cmd"], "detail": "exit status %s under valgrind after %d lines; last line: %s" % (rc, len(lines), (lines[-1] if lines else "")[:200]), "report": err[-2000:]})
+                else:
+                    ctx.count("abi_lines_run_under_memcheck_x86", len(lines))
                 continue
             if any(l.startswith("E ") for l in lines) or rc == 2:
                 ctx.inconclusive.append("h_abi harness failure in %s/%s: %s" % (tag, sec, [l for l in lines if l.startswith("E ")][:1]))
